@@ -17,6 +17,7 @@ class C05(Prop):
             "non-trivial = a margined contract is held short or flipped, or >= 2 margined contracts are held at once, "
             "or a user-defined margin requirement other than the built-ins is used, or a spot contract with "
             "multiplier != 1 is valued; distinct = distinct canonical histories")
+    rule = rule + bs.HISTORY_RULE
     nontrivial_tags = {"short-margined", "flip", "two-margined", "user-mr", "spot-mult"}
     assumptions = [
         "cash book quoted 1.0:1.0 and reference-rate book seeded, as TradingEnv.reset does",
@@ -39,6 +40,10 @@ class C05(Prop):
 
 def judge_c05(r, s):
     tags_for(r, s)
+    from .c01 import snap_fired
+    if snap_fired(s):
+        r.skipped = "epsilon snap fired (K1)"
+        return
     for c in s.case["contracts"]:
         if c["kind"] == "user" and c["mr"] not in ("0",):
             r.tags.add("user-mr")
@@ -64,11 +69,15 @@ def judge_c05(r, s):
                 continue
             if q < 0:
                 r.tags.add("short-margined")
-            if mg < -tol:
+            b0, a0 = o["quotes"].get(k, (None, None))
+            priced = q == 0 or (b0 if q > 0 else a0) is not None
+            if mg < -tol and priced and k in must:
+                # (the property speaks of the moments the account is valued or marked and, for the traded contract, right
+                # after a trade; a held position without a quote on its liquidation side cannot be marked at all)
                 r.fail("margin-negative", op_index=i, op=o["op"], key=k, margin=float(mg), theorem="margin_nonneg")
             if k in must:
                 b, a = o["quotes"].get(k, (None, None))
-                p = b if q > 0 else a if q < 0 else (None if a is None or b is None else (a + b) / 2)
+                p = b if q > 0 else a if q < 0 else Fraction(0)   # flat: zero margin, whatever the book (F11)
                 if p is None:
                     continue
                 want = mr * m * abs(q) * p
